@@ -26,6 +26,8 @@ def obligations(tier, seed):
                "every finite f64", tq=1200),
         KaniOb("c17", "c17_float_constructors_small_inputs", "from_mjd_in_time_scale end to end (real Unit x f64) on quarter-day inputs around the MJD origin, negative non-integers included: equals (x - 15020) days and the exact integer instant",
                ["Epoch::from_mjd_in_time_scale", "impl Mul<f64> for Unit", "Duration::from_truncated_nanoseconds"], "x = k/4 days, |k| < 16384", tq=2400),
+        KaniOb("c17", "c17_unix_leap_windows", "UNIX duration on both sides of the two most recent leap seconds: UTC elapsed since 1970-01-01, leap seconds not counted",
+               ["Epoch::to_unix_duration", "UNIX_REF_EPOCH", "Epoch::to_time_scale (UTC arms)"], "UTC epochs within 120 s of 2017-01-01T00:00:00 and 2015-07-01T00:00:00, ns resolution; unwind 44", tq=1800),
         KaniOb("c17", "c17_float_views_total", "float-valued views: finite, no panic, sign of the exact value", ["Epoch::to_tai_seconds / to_tai_days / to_mjd_tai_days / to_jde_tai_days", "Duration::to_seconds", "Duration::to_unit"],
                "TAI epochs, |centuries| < 110", tq=900),
     ]
